@@ -134,6 +134,30 @@ class Session:
         return sorted(s for s, o in self.slots.items() if [getattr(o, n) for n in FIELDS] != self.given[s])
 
 
+def make_obj(sess, call, fields):
+    """The ImagePlaceholder a call works on, holding `fields`.  call["make"] says how the caller got it:
+        (absent)  the positional constructor, or the session's slot object re-assigned field by field
+        "kw"      the keyword constructor
+        "clone"   ImagePlaceholder(*call["from"]).clone_with(<the fields that differ>)
+        "assign"  ImagePlaceholder(*call["from"]), then the fields that differ assigned as attributes
+    (no route validates: whatever the fields hold reaches the emitting call)."""
+    how = call.get("make")
+    if how is None:
+        return sess.placeholder(call.get("slot"), fields) if sess is not None else ph_obj(fields)
+    if how == "kw":
+        return mods().ImagePlaceholder(**dict(zip(FIELDS, fields)))
+    src = call["from"]
+    diff = {n: v for n, v, g in zip(FIELDS, fields, src) if v != g}
+    o = ph_obj(src)
+    if how == "clone":
+        return o.clone_with(**diff)
+    if how == "assign":
+        for n, v in diff.items():
+            setattr(o, n, v)
+        return o
+    raise ToolFailure(f"malformed case: unknown make {how!r}")
+
+
 def _drop_defaults(kw, m, noesc=None):
     """the call as written by a caller who leaves out every optional argument that has its default value"""
     out = {}
@@ -153,11 +177,11 @@ def _drop_defaults(kw, m, noesc=None):
 def impl_lines(p, m, f, noesc, sess=None, call=None):
     """-> ("ok", [bytes…]) | ("err value"|"err index", None)
     sess/call (sequence cases): the placeholder object of slot call["slot"]; call["omitopt"]: default-valued optional
-    arguments are left out of the call."""
+    arguments are left out of the call; call["make"]: how the object is obtained (make_obj)."""
     call = call or {}
     try:
         mode = mode_obj(m)
-        o = sess.placeholder(call.get("slot"), p) if sess is not None else ph_obj(p)
+        o = make_obj(sess, call, p)
         if call.get("omitopt"):
             lines = o.to_lines(**_drop_defaults(dict(mode=mode, formatting=fmt_obj(f), no_escape=bool(noesc)), m))
         else:
@@ -209,10 +233,10 @@ def impl_stream(style, p, m, f, via="direct", sess=None, call=None):
                     term.print_placeholder(**kw, **opt)
                 else:
                     fields = [form["junk"][i] if i in over else p[i] for i in range(6)]
-                    o = sess.placeholder(call.get("slot"), fields) if sess is not None else ph_obj(fields)
+                    o = make_obj(sess, call, fields)
                     term.print_placeholder(o, **kw, **opt)
         else:
-            o = sess.placeholder(call.get("slot"), p) if sess is not None else ph_obj(p)
+            o = make_obj(sess, call, p)
             if call.get("omitopt"):
                 if style[0] == "cur":
                     o.to_stream_at_cursor(out, **_drop_defaults(dict(mode=mode, formatting=fo, use_save_cursor=bool(style[1]),
@@ -239,7 +263,8 @@ def impl_stream(style, p, m, f, via="direct", sess=None, call=None):
             else:
                 raise KeyError(style[0])
     except (ValueError, IndexError) as e:
-        return _err(e), None
+        # a refusal normally writes nothing (-> None); whatever reached the stream before the exception is handed back
+        return _err(e), (out.getvalue()[start:] or None)
     return "ok", out.getvalue()[start:]
 
 
